@@ -322,6 +322,21 @@ def opIdx (args : List String) : String :=
     | _, _, _, _ => "bad-op"
   | _ => "bad-op"
 
+-- idxbad <opts> <d> <p> <size> <seed> <k> <len>: EncodeIdx of data shard k presented with length <len> on encoded parity
+-- (API model: argument checks in the order of the code; a wrong length is ErrShardSize and nothing is written)
+def opIdxBad (args : List String) : String :=
+  match args with
+  | [_opts, ds, ps, szs, _seeds, ks, ns] =>
+    match ds.toNat?, ps.toNat?, szs.toNat?, ks.toNat?, ns.toNat? with
+    | some d, some p, some size, some k, some n =>
+      if d = 0 then "err InvShardNum" else
+      if size = 0 then "err(encode) ShardNoData" else
+      if p = 0 then "ok unchanged" else
+      if k ≥ d then "err InvShardNum unchanged" else
+      if n ≠ size then "err ShardSize unchanged" else "ok changed"
+    | _, _, _, _, _ => "bad-op"
+  | _ => "bad-op"
+
 -- upd <opts> <d> <p> <size> <seed> <changed> <nils> [<newlen>]
 def opUpd (args : List String) : String :=
   match args with
@@ -589,14 +604,18 @@ def opCertM (args : List String) : String :=
     | _, _ => "bad-op"
   | _ => "bad-op"
 
-def step (line : String) : String :=
-  match (line.trimAscii.toString.splitOn " ").filter (· ≠ "") with
+def stepToks : List String → String
+  | "guard" :: rest => stepToks rest      -- `guard <op>`: the harness runs <op> under its watchdog; same expected answer
+  | toks => stepOp toks
+where stepOp (toks : List String) : String :=
+  match toks with
   | "gen" :: args => opGen args
   | "enc" :: args => opEnc args
   | "rec" :: args => opRec args
   | "ver" :: args => opVer args
   | "tab" :: args => opTab args
   | "idx" :: args => opIdx args
+  | "idxbad" :: args => opIdxBad args
   | "hist" :: args => opHist args
   | "bfneed" :: args => opBfNeed args
   | "bfkey" :: args => opBfKey args
@@ -627,6 +646,9 @@ def step (line : String) : String :=
   | "certm" :: args => opCertM args
   | [] => ""
   | _ => "bad-op"
+
+def step (line : String) : String :=
+  stepToks ((line.trimAscii.toString.splitOn " ").filter (· ≠ ""))
 
 partial def loop (hin : IO.FS.Stream) (hout : IO.FS.Stream) : IO Unit := do
   let line ← hin.getLine
